@@ -17,7 +17,7 @@ package absnfs
 //@ specdef listed(ns []*NFSNode) bool = forall(a, off(ns), off(ns) + len(ns), allocated(absidx(ns, a)) && absidx(ns, a).attrs != nil, absidx(ns, a))
 // bytes of one READDIR entry3 / READDIRPLUS entryplus3 with an 8-byte handle and attributes
 // the directory cache, when there is one, is a well-formed cache with its own LRU list
-//@ specdef dirCacheApart(s *AbsfsNFS) bool = s.dirCache == nil || (dcInv(s.dirCache) && s.dirCache.accessList != s.attrCache.accessList)
+//@ specdef dirCacheApart(s *AbsfsNFS) bool = allocated(s.attrCache.accessList) && (s.dirCache == nil || (dcInv(s.dirCache) && allocated(s.dirCache.accessList) && s.dirCache.accessList != s.attrCache.accessList))
 //@ specdef entry3Size(name string) mathint = 4 + 8 + 4 + roundup4(len(name)) + 8
 //@ specdef entryplus3Size(name string) mathint = entry3Size(name) + 88 + 16
 
